@@ -1,3 +1,3 @@
 SPECIFICATION Spec
-CONSTANTS Lines <- Id9  Prog <- ProgRecur  BpSets <- BpsRecur  MaxReq = 2  Deviations <- NextDev  Fuel = 60
+CONSTANTS LibLines <- NoLib  Lines <- Id9  Prog <- ProgRecur  BpSets <- BpsRecur  MaxReq = 2  Deviations <- NextDev  Fuel = 60
 INVARIANT StepExact
